@@ -153,6 +153,35 @@ func c05OutCase(run *ev.Run, r *rand.Rand, reg *svc.Registry, lb *wire.Loopback,
 			replies = replies[:len(replies)/2]
 		}
 	}
+	bareCtxErr, sendFails := false, false
+	switch r.Intn(10) {
+	case 0:
+		if herr == nil {
+			// the handler returns a bare context error (what ctx.Err() gives it)
+			outcome = "bare-context-error"
+			bareCtxErr = true
+			if r.Intn(2) == 0 {
+				prog.Return = context.Canceled
+				herr = connect.NewError(connect.CodeCanceled, context.Canceled)
+			} else {
+				prog.Return = context.DeadlineExceeded
+				herr = connect.NewError(connect.CodeDeadlineExceeded, context.DeadlineExceeded)
+			}
+			if kind == svc.Unary || kind == svc.ClientStream {
+				replies = nil
+			}
+		}
+	case 1:
+		if herr == nil {
+			// the first response message cannot be marshalled (invalid UTF-8 in a
+			// string field): whatever the handler does next, the response on the
+			// wire must still be a well-formed one
+			outcome = "first-send-fails"
+			sendFails = true
+			prog.Steps = append(prog.Steps, svc.Step{Op: "send", Msg: &gen.Msg{Id: 3, Note: "\xff\xfe"}})
+			replies = nil
+		}
+	}
 	for _, m := range replies {
 		prog.Steps = append(prog.Steps, svc.Step{Op: "send", Msg: m})
 	}
@@ -178,7 +207,7 @@ func c05OutCase(run *ev.Run, r *rand.Rand, reg *svc.Registry, lb *wire.Loopback,
 	}
 	lb.Mu().Unlock()
 	run.Eval(fmt.Sprintf("out|%s|%s|msgs=%d", cfg, outcome, len(replies)))
-	detail := map[string]any{"config": cfg, "outcome": outcome, "client_err": errStr(cl.Err)}
+	detail := map[string]any{"config": cfg, "outcome": outcome, "client_err": errStr(cl.Err), "bare_context_error": bareCtxErr}
 	if ex == nil {
 		run.Violation(key+"/no-exchange", "no HTTP exchange recorded", detail)
 		return
@@ -240,6 +269,18 @@ func c05OutCase(run *ev.Run, r *rand.Rand, reg *svc.Registry, lb *wire.Loopback,
 		bad("response-malformed", "response written by the handler violates the protocol: "+strings.Join(d.Problems, "; "))
 		return
 	}
+	if sendFails {
+		run.Count("outbound.first_send_fails", 1)
+		// unary kinds: the call as a whole fails; streams: the program ignores
+		// the Send error and returns nil
+		if (kind == svc.Unary || kind == svc.ClientStream) && d.Err == nil {
+			bad("send-failure-as-success", "the response message could not be marshalled, yet the wire carries a success")
+		}
+		if len(d.Messages) != 0 {
+			bad("send-failure-message", "a message that could not be marshalled appears on the wire")
+		}
+		return
+	}
 	wantCT := rq.Get("Content-Type")
 	if !streamCT && herr != nil {
 		wantCT = "application/json"
@@ -283,13 +324,13 @@ func c05OutCase(run *ev.Run, r *rand.Rand, reg *svc.Registry, lb *wire.Loopback,
 	hdrOK := herr == nil || kind == svc.ServerStream || kind == svc.Bidi
 	if hdrOK {
 		for k, want := range respH {
-			if got := all(k); !subseq(got, want) {
+			if got := all(k); !sameList(got, want) {
 				bad("response-metadata", fmt.Sprintf("header %q = %q on the wire, handler set %q", k, got, want))
 				return
 			}
 		}
 		for k, want := range respT {
-			if got := all(k); !subseq(got, want) {
+			if got := all(k); !sameList(got, want) {
 				bad("response-metadata", fmt.Sprintf("trailer %q = %q on the wire, handler set %q", k, got, want))
 				return
 			}
@@ -299,7 +340,7 @@ func c05OutCase(run *ev.Run, r *rand.Rand, reg *svc.Registry, lb *wire.Loopback,
 		if strings.HasPrefix(k, "Grpc-") {
 			continue
 		}
-		if got := all(k); !subseq(got, want) {
+		if got := all(k); !sameList(got, want) {
 			bad("error-metadata", fmt.Sprintf("error metadata %q = %q on the wire, handler set %q", k, got, want))
 			return
 		}
